@@ -151,6 +151,10 @@ def generate(prop, seed, tier='quick'):
     if prof.get('sql_knobs_only'):
         knobs['chunk'] = DEFAULT_KNOBS['chunk']
         knobs['zchunk'] = DEFAULT_KNOBS['zchunk']
+    if big:
+        # byte-sized chunks on objects of hundreds of KiB mean millions of seam calls in one run (minutes under load)
+        knobs['chunk'] = max(knobs['chunk'], 4096)
+        knobs['zchunk'] = max(knobs['zchunk'], 4096)
     lo, hi = prof['nops']
     if thorough:
         hi = hi * 3
